@@ -11,6 +11,7 @@ import (
 	"errors"
 	"fmt"
 	"strings"
+	"sync"
 	"time"
 
 	eth2client "github.com/attestantio/go-eth2-client"
@@ -77,15 +78,19 @@ func c16FailureBody(op string, server string, kind string) c16Answer {
 	panic("c16 harness: unknown failure kind " + kind)
 }
 
-func c16RunSubmitClassify(ctx context.Context, sh map[string]string) c16Res {
-	node := c16NewNode(c16NodeVersion(sh["server"]))
-	defer node.Close()
-	ans := c16FailureBody(sh["op"], sh["server"], sh["err"])
-	node.Set("/eth/v1/beacon/pool/sync_committees", ans)
-	node.Set("/eth/v1/validator/contribution_and_proofs", ans)
-	node.Set("/eth/v1/beacon/pool/attestations", ans)
-	client := c16NodeClient(ctx, node)
+// c16SubmitInst: the multinode submitter over one node of a given software.
+type c16SubmitInst struct {
+	node *c16Server
+	gate *c16Gate
+	s    *multinode.Service
+}
 
+func c16NewSubmitInst(ctx context.Context, first map[string]string) c16Instance {
+	in := &c16SubmitInst{node: c16NewNode(c16NodeVersion(first["server"])), gate: &c16Gate{}}
+	for _, prefix := range []string{"/eth/v1/beacon/pool/sync_committees", "/eth/v1/validator/contribution_and_proofs", "/eth/v1/beacon/pool/attestations"} {
+		in.node.Gate(prefix, in.gate)
+	}
+	client := c16NodeClient(ctx, in.node)
 	s, err := multinode.New(ctx,
 		multinode.WithLogLevel(c16LogLevel()),
 		multinode.WithTimeout(400*time.Millisecond),
@@ -102,17 +107,37 @@ func c16RunSubmitClassify(ctx context.Context, sh map[string]string) c16Res {
 	if err != nil {
 		panic("c16 harness: submitter: " + err.Error())
 	}
+	in.s = s
+	return in
+}
+
+func (in *c16SubmitInst) Gate() *c16Gate { return in.gate }
+func (in *c16SubmitInst) Close() {
+	in.gate.Release()
+	in.node.Close()
+}
+
+func (in *c16SubmitInst) Prepare(_ int, sh map[string]string) {
+	ans := c16FailureBody(sh["op"], sh["server"], sh["err"])
+	in.node.Set("/eth/v1/beacon/pool/sync_committees", ans)
+	in.node.Set("/eth/v1/validator/contribution_and_proofs", ans)
+	in.node.Set("/eth/v1/beacon/pool/attestations", ans)
+}
+
+func (in *c16SubmitInst) Invoke(ctx context.Context, k int, sh map[string]string) c16Res {
+	slot := phase0.Slot(2 + k - 1)
+	var err error
 	switch sh["op"] {
 	case "messages":
-		err = s.SubmitSyncCommitteeMessages(ctx, []*altair.SyncCommitteeMessage{{Slot: 2, ValidatorIndex: 1}})
+		err = in.s.SubmitSyncCommitteeMessages(ctx, []*altair.SyncCommitteeMessage{{Slot: slot, ValidatorIndex: 1}})
 	case "contributions":
-		err = s.SubmitSyncCommitteeContributions(ctx, []*altair.SignedContributionAndProof{{
-			Message: &altair.ContributionAndProof{AggregatorIndex: 1, Contribution: &altair.SyncCommitteeContribution{Slot: 2, AggregationBits: bitfield.NewBitvector128()}},
+		err = in.s.SubmitSyncCommitteeContributions(ctx, []*altair.SignedContributionAndProof{{
+			Message: &altair.ContributionAndProof{AggregatorIndex: 1, Contribution: &altair.SyncCommitteeContribution{Slot: slot, AggregationBits: bitfield.NewBitvector128()}},
 		}})
 	case "attestations":
-		err = s.SubmitAttestations(ctx, []*phase0.Attestation{{
+		err = in.s.SubmitAttestations(ctx, []*phase0.Attestation{{
 			AggregationBits: bitfield.NewBitlist(8),
-			Data:            &phase0.AttestationData{Slot: 2, Source: &phase0.Checkpoint{}, Target: &phase0.Checkpoint{}},
+			Data:            &phase0.AttestationData{Slot: slot, Source: &phase0.Checkpoint{}, Target: &phase0.Checkpoint{}},
 		}})
 	}
 	if err != nil {
@@ -121,17 +146,24 @@ func c16RunSubmitClassify(ctx context.Context, sh map[string]string) c16Res {
 	return c16OK("accepted (rejection tolerated)")
 }
 
-// c16Majordomo is a scripted confidant store.
+// c16Majordomo is a scripted confidant store (what the operator's files hold right now).
 type c16Majordomo struct {
+	mu    sync.Mutex
 	files map[string]string
 	errs  map[string]error
+	gate  *c16Gate
 }
 
 func (m *c16Majordomo) Fetch(_ context.Context, url string) ([]byte, error) {
-	if err, ok := m.errs[url]; ok {
+	m.mu.Lock()
+	err, isErr := m.errs[url]
+	v, ok := m.files[url]
+	m.mu.Unlock()
+	m.gate.Pass()
+	if isErr {
 		return nil, err
 	}
-	if v, ok := m.files[url]; ok {
+	if ok {
 		return []byte(v), nil
 	}
 	return nil, majordomo.ErrNotFound
@@ -169,28 +201,30 @@ func c16GraffitiFile(kind string) string {
 	panic("c16 harness: unknown graffiti file kind " + kind)
 }
 
-// c16NewGraffitiProvider builds the real dynamic graffiti provider over the scripted store.
-func c16NewGraffitiProvider(ctx context.Context, sh map[string]string) *dynamicgraffiti.Service {
-	md := &c16Majordomo{files: map[string]string{}, errs: map[string]error{}}
-	loc, resolved := "file:///graffiti/all.txt", "file:///graffiti/all.txt"
-	if sh["loc"] == "templated" {
-		loc, resolved = "file:///graffiti/{{VALIDATORINDEX}}/{{SLOT}}.txt", "file:///graffiti/7/12345.txt"
-	}
-	switch sh["file"] {
-	case "missing":
-	case "error":
-		md.errs[resolved] = errors.New("permission denied")
-	default:
-		md.files[resolved] = c16GraffitiFile(sh["file"])
+// c16GraffitiInst: the dynamic graffiti provider over the scripted store, alone (use = call) or as the
+// graffiti source of the real proposer (use = propose | proposebest).
+type c16GraffitiInst struct {
+	md       *c16Majordomo
+	s        *dynamicgraffiti.Service
+	loc      string
+	use      string
+	proposer *c16GraffitiProposeInst
+}
+
+func c16NewGraffitiInst(ctx context.Context, first map[string]string) c16Instance {
+	in := &c16GraffitiInst{md: &c16Majordomo{files: map[string]string{}, errs: map[string]error{}, gate: &c16Gate{}}, use: first["use"]}
+	in.loc = "file:///graffiti/all.txt"
+	if first["loc"] == "templated" {
+		in.loc = "file:///graffiti/{{VALIDATORINDEX}}/{{SLOT}}.txt"
 	}
 	params := []dynamicgraffiti.Parameter{
 		dynamicgraffiti.WithLogLevel(c16LogLevel()),
-		dynamicgraffiti.WithMajordomo(md),
-		dynamicgraffiti.WithLocation(loc),
+		dynamicgraffiti.WithMajordomo(in.md),
+		dynamicgraffiti.WithLocation(in.loc),
 	}
-	switch sh["fallback"] {
+	switch first["fallback"] {
 	case "present":
-		md.files["file:///graffiti/fallback.txt"] = "fallback graffiti"
+		in.md.files["file:///graffiti/fallback.txt"] = "fallback graffiti"
 		params = append(params, dynamicgraffiti.WithFallbackLocation("file:///graffiti/fallback.txt"))
 	case "missing":
 		params = append(params, dynamicgraffiti.WithFallbackLocation("file:///graffiti/fallback.txt"))
@@ -199,17 +233,52 @@ func c16NewGraffitiProvider(ctx context.Context, sh map[string]string) *dynamicg
 	if err != nil {
 		panic("c16 harness: graffiti provider: " + err.Error())
 	}
-	return s
+	in.s = s
+	if in.use != "call" {
+		in.proposer = c16NewGraffitiProposeInst(ctx, in.use, s)
+	}
+	return in
 }
 
-func c16RunGraffiti(ctx context.Context, sh map[string]string) c16Res {
-	s := c16NewGraffitiProvider(ctx, sh)
-	if sh["use"] != "call" {
-		return c16RunGraffitiPropose(ctx, sh, s)
+func (in *c16GraffitiInst) Gate() *c16Gate { return in.md.gate }
+func (in *c16GraffitiInst) Close() {
+	in.md.gate.Release()
+	if in.proposer != nil {
+		in.proposer.node.Close()
+	}
+}
+
+// the slot a call asks graffiti for (the templated location names it)
+func (in *c16GraffitiInst) slot(k int) phase0.Slot {
+	if in.use == "call" {
+		return phase0.Slot(12345 + k - 1)
+	}
+	return c16CallSlot(k)
+}
+
+// Prepare: what the operator's file holds when call k asks for it.
+func (in *c16GraffitiInst) Prepare(k int, sh map[string]string) {
+	resolved := strings.NewReplacer("{{VALIDATORINDEX}}", "7", "{{SLOT}}", fmt.Sprintf("%d", in.slot(k))).Replace(in.loc)
+	in.md.mu.Lock()
+	defer in.md.mu.Unlock()
+	delete(in.md.files, resolved)
+	delete(in.md.errs, resolved)
+	switch sh["file"] {
+	case "missing":
+	case "error":
+		in.md.errs[resolved] = errors.New("permission denied")
+	default:
+		in.md.files[resolved] = c16GraffitiFile(sh["file"])
+	}
+}
+
+func (in *c16GraffitiInst) Invoke(ctx context.Context, k int, sh map[string]string) c16Res {
+	if in.use != "call" {
+		return in.proposer.propose(ctx, k)
 	}
 	var last []byte
 	for i := 0; i < 8; i++ { // the line is picked at random: several draws
-		g, err := s.Graffiti(ctx, 12345, 7)
+		g, err := in.s.Graffiti(ctx, in.slot(k), 7)
 		if err != nil {
 			return c16Err(err.Error())
 		}
@@ -227,6 +296,6 @@ func c16RunGraffiti(ctx context.Context, sh map[string]string) c16Res {
 }
 
 func init() {
-	c16Register("submitclassify", c16RunSubmitClassify)
-	c16Register("graffiti", c16RunGraffiti)
+	c16RegisterInstance("submitclassify", c16NewSubmitInst)
+	c16RegisterInstance("graffiti", c16NewGraffitiInst)
 }
